@@ -300,6 +300,7 @@ def apply_op(run, case, real, sh, op, stamped, state, step):
     elif name == "align":
         ref = make_reference(sh, op["seed"], stamped)
         ref_obj = gen.make_evo(ref, "se3", stamped)
+        state.setdefault("partners", []).append((ref_obj, gen.make_evo(ref, "se3", stamped), "align"))
         out = contracts.outcome_of(real.align, ref_obj, op["cs"], op["only"], op["n"])
         # the alignment's documented effect is the Umeyama least-squares similarity of the
         # current positions onto the reference's (same oracle as C03, at this call site)
@@ -316,7 +317,8 @@ def apply_op(run, case, real, sh, op, stamped, state, step):
         sh.similarity(r, t, s, only_scale=op["only"])
     elif name == "origin":
         ref = make_reference(sh, op["seed"], stamped)
-        ref_obj = gen.make_evo(ref, "xyzq", stamped)
+        ref_obj = gen.make_evo(ref, ["xyzq", "se3"][op["seed"] % 2], stamped)
+        state.setdefault("partners", []).append((ref_obj, gen.make_evo(ref, ["xyzq", "se3"][op["seed"] % 2], stamped), "align_origin"))
         T = real.align_origin(ref_obj)
         sh.transform_left(T)
         run.check(float(np.max(np.abs(sh.p[0] - ref["p"][0]))) <= 1e-9 * (sh.mag + float(np.max(np.abs(ref["p"])))) and
@@ -358,6 +360,18 @@ def apply_op(run, case, real, sh, op, stamped, state, step):
     return real, sh
 
 
+def check_partners(run, case, state, trace):
+    """objects that were only read by an operation (alignment targets) still describe their own
+    poses at the end of the history, whatever was done to the operated object since"""
+    for obj, twin, how in state.get("partners", []):
+        # (twin: built from the same arrays in the same way, never handed to anything)
+        v, w = gen.read_views(obj), gen.read_views(twin)
+        okp = all(core.bits_equal(v[k], w[k]) for k in w)
+        run.check(okp, "reference of an alignment is left as it was", case,
+                  "the reference handed to %s no longer describes its own poses at the end of the history %s" %
+                  (how, list(trace)[-6:]), key="partner-modified:" + how)
+
+
 def run_history(run, case, arr, mode, stamped, ops, label):
     real = gen.make_evo(arr, mode, stamped)
     sh = ShadowTrajectory(arr["R"], arr["p"], arr["t"] if stamped else None)
@@ -377,6 +391,7 @@ def run_history(run, case, arr, mode, stamped, ops, label):
         for parent, psh in state["parents"]:
             read_and_compare(run, case, parent, psh, ["p", "q", "T"] + (["t"] if stamped else []),
                              step, "copy (parent re-inspected)")
+        check_partners(run, case, state, [o["op"] for o in ops])
     except Mismatch:
         pass
     except Exception as e:  # an operation of the documented alphabet must not crash
@@ -453,6 +468,7 @@ def run_history_lazy(run, case, arr, mode, stamped, lazy):
         for parent, psh in state["parents"]:
             read_and_compare(run, case, parent, psh, ["p", "q", "T"] + (["t"] if stamped else []),
                              step, "copy (parent re-inspected)")
+        check_partners(run, case, state, trace)
     except Mismatch:
         pass
     except Exception as e:
